@@ -59,7 +59,7 @@ def run(ctx):
                        expect_violation="violated", count=False)
     # 2. generation: TLC simulation produces operation sequences (2 records, 2 observers)
     from vlib import Infra
-    nb = 120 if ctx.thorough() else 30
+    nb = 120 if ctx.thorough() else 20
     ctx.tlc_mc("MC_Record.tla", "Record_gen.cfg", timeout=600, simulate="num=%d" % nb,
                extra_args=["-depth", "41", "-seed", str(ctx.seed)], count=False, workers=1)
     bs = behaviours(ctx._last_out)[:nb]
